@@ -151,6 +151,15 @@ CHECKS["C06"] = dict(
     technique="property-based generation of concurrent programs + exact linearizability checking of the recorded histories",
 )
 
+CHECKS["C19"] = dict(
+    engine="pbt",
+    category="exploration",
+    text="Generated texts (empty, single symbol, all-equal, periodic, de-Bruijn-like, Fibonacci-like, random over alphabets of 1..4000 symbols incl. 0 and u32::MAX and the 254-257 symbol width switch) with generated record boundaries and needle families (substrings incl. across records, mutated, absent, empty, whole text): CompressedDocument and ReferenceDocument are each compared with a naive scan written in the harness for len, records, count, search, lookup, offset_of, retrieve, and again after pack/unpack; every exported BitVector implementation (rrr, cf_rrr, sparse incl. from_indices, reference) is compared with Vec<bool> for access / rank / select at all indices (small vectors) or at structure-size neighbourhoods (up to 50 000 bits), including out-of-range ranks; wavelet trees against a plain symbol vector.",
+    design_ref="DESIGN.md §5 C19",
+    note="Where the documentation is silent and both implementations agree, their common behaviour is adopted (recorded as assumptions in the evidence). More than 65 535 distinct symbols and texts of 2^32 symbols are out of reach.",
+    technique="property-based testing (proptest) with a naive-scan reference model and a two-implementation differential",
+)
+
 NOT_YET = {
 }
 
